@@ -8,7 +8,10 @@
 //!          positions in that second list (`-` when the first call panicked);
 //! * M:     coverage ratios `Universal2DBox::intersection(b_i, b_j) as f32 / b_j.area()` for every ordered pair of
 //!          distinct boxes of positive size, computed here with the crate's own functions; only entries whose bit
-//!          pattern is not +0.0 are printed (`i:j:P` if the computation panicked).  This is the `covers` oracle.
+//!          pattern is not +0.0 are printed (`i:j:P` if the computation panicked): the implementation's own coverage
+//!          ratio, used by the property oracles;
+//! * I:     `Universal2DBox::intersection(b_i, b_j) as f32` for the same pairs (non-zero ones): the only oracle of the
+//!          Coq model, which divides by the area and compares with the threshold by the TRANSLATED nms.rs expressions.
 use similari::utils::bbox::Universal2DBox;
 use similari::utils::nms::nms;
 use similari_verif_harness::*;
@@ -52,6 +55,7 @@ fn run_case(k: usize, kind: &str, thr: f32, st: Option<f32>, boxes: &[RawBox]) {
     });
     // the oracle table
     let mut m = Vec::new();
+    let mut inter = Vec::new();
     for (i, bi) in boxes.iter().enumerate() {
         if !(bi.height > 0.0 && bi.aspect > 0.0) {
             continue;
@@ -59,6 +63,12 @@ fn run_case(k: usize, kind: &str, thr: f32, st: Option<f32>, boxes: &[RawBox]) {
         for (j, bj) in boxes.iter().enumerate() {
             if i == j || !(bj.height > 0.0 && bj.aspect > 0.0) {
                 continue;
+            }
+            // the oracle value of the model: the intersection area exactly as nms.rs casts it
+            if let Some(v) = guarded(|| Universal2DBox::intersection(&dets[i].0, &dets[j].0) as f32) {
+                if v.to_bits() != 0 {
+                    inter.push(format!("{}:{}:{}", i, j, f32b(v)));
+                }
             }
             let r = guarded(|| Universal2DBox::intersection(&dets[i].0, &dets[j].0) as f32 / dets[j].0.area());
             match r {
@@ -85,7 +95,7 @@ fn run_case(k: usize, kind: &str, thr: f32, st: Option<f32>, boxes: &[RawBox]) {
         Some(None) => "P".to_string(),
         Some(Some(v)) => idx(v),
     };
-    println!("case {} kind={} thr={} st={} boxes={} kept={} again={} M={}", k, kind, f32b(thr), opt_bits(st), bs.join(";"), kept_s, again_s, m.join(","));
+    println!("case {} kind={} thr={} st={} boxes={} kept={} again={} M={} I={}", k, kind, f32b(thr), opt_bits(st), bs.join(";"), kept_s, again_s, m.join(","), inter.join(","));
 }
 
 // ---------------------------------------------------------------------------------------------------------
